@@ -9,7 +9,8 @@
 (* Runs are concatenated with Reset events.  Focus selects which fields of *)
 (* the observations are compared: "C01" structure, "C02" annotations,      *)
 (* "C03" information content (consistency with the ontology's own n, N),   *)
-(* "C04" pair queries (similarity arguments and formulas), "C11" distances *)
+(* "C04" pair queries (similarity arguments and formulas), "C07" the binary  *)
+(* round trip of every recorded ontology with the two roots, "C11" distances *)
 (* and paths, "C12" ancestor queries as set algebra.                       *)
 (***************************************************************************)
 EXTENDS HpoSetOps, Json, IOUtils
@@ -65,17 +66,25 @@ BuiltMatches(p) ==
   LET want == Proj IN
   /\ p.len = Len(arena)
   /\ Len(p.terms) = Len(arena)
-  /\ (Focus \in {"C01", "C14", "C15"}) =>
+  /\ (Focus \in {"C01", "C14", "C15", "C07"}) =>
        /\ {StructOf(t) : t \in Range(p.terms)} = {StructOf(t) : t \in Range(want.terms)}
        /\ \A t \in Range(p.terms) : LoggedStructOk(t)
-  /\ (Focus \in {"C03", "C14"}) => p.ic_bad = <<>>        \* IC = -ln(n/N) on the ontology's own n and N (checked by the recorder)
-  /\ (Focus \in {"C02", "C14", "C15"}) =>
+  /\ (Focus \in {"C03", "C14", "C07"}) => p.ic_bad = <<>>        \* IC = -ln(n/N) on the ontology's own n and N (checked by the recorder)
+  /\ (Focus \in {"C02", "C14", "C15", "C07"}) =>
        /\ {AnnOf(t) : t \in Range(p.terms)} = {AnnOf(t) : t \in Range(want.terms)}
        /\ \A t \in Range(p.terms) : LoggedAnnOk(t)
        /\ p.gene = want.gene /\ p.omim = want.omim /\ p.orpha = want.orpha
 
 TBuilt ==
   /\ Ev("Built") /\ Step
+  /\ phase = "connected"
+  /\ BuiltMatches(Rec[l].proj)
+  /\ UNCHANGED coreVars
+
+(* the binary round trip of the built ontology (recorded when it holds HP:1 and HP:118): as_bytes -> from_bytes is the *)
+(* identity on everything the projection shows - a stuttering step whose observation must again be the builder state   *)
+TReloaded ==
+  /\ Ev("Reloaded") /\ Step
   /\ phase = "connected"
   /\ BuiltMatches(Rec[l].proj)
   /\ UNCHANGED coreVars
@@ -164,7 +173,7 @@ QueryMatches(ev) ==
 
 TQuery == Ev("Query") /\ Step /\ phase = "connected" /\ QueryMatches(Rec[l]) /\ UNCHANGED coreVars
 
-TNext == TReset \/ TNewTerm \/ TTermsComplete \/ TAddParent \/ TAddParentRejected \/ TConnectAll \/ TAddRecord \/ TAnnotate \/ TAnnotateRejected \/ TBuilt \/ TSub \/ TSubErr \/ TQuery
+TNext == TReset \/ TNewTerm \/ TTermsComplete \/ TAddParent \/ TAddParentRejected \/ TConnectAll \/ TAddRecord \/ TAnnotate \/ TAnnotateRejected \/ TBuilt \/ TReloaded \/ TSub \/ TSubErr \/ TQuery
 
 TSpec == TInit /\ [][TNext]_tvars
 
